@@ -94,7 +94,7 @@ def report(ctx, rows):
     defect = [r for r in rows if r[3] == r[2]]           # impl behaves like the faithful model of lazy.rs
     other = [r for r in rows if r[3] != r[2]]
     if defect:
-        defect.sort(key=lambda r: (len(r[0].split()), r[0]))
+        defect.sort(key=lambda r: (len(r[0].split()), len(r[0]), r[0]))
         main_hang = [r for r in defect if r[3] == "HANG"]
         blocked = [r for r in defect if r[3] != "HANG"]
         examples = (main_hang[:1] + blocked[:1]) or defect[:1]
